@@ -1,4 +1,5 @@
 """C07 — tax-year boundary and year slice (structural clauses)."""
+import re
 from mir import Terms, parse_callee, show, op_place, op_const, place_proj, subterms, calls_in
 from flow import body_is_external, HashOrder
 import panics as P
@@ -653,6 +654,77 @@ def _const_int_ranges(b):
         return found
 
 
+def filing_keys(F, rep):
+    """R7 (each leg and each dividend is filed under the tax year of its OWN date): wherever library code files an element into a
+    map keyed by the year (`entry` / `insert` on a map whose key type is u16), the key is, on every path, the start year of
+    `TaxPeriod::from_date(<a date of the element>)` — directly or through a helper that returns exactly that. A key chosen between
+    that and something else (a cached period reused while `date - start < 366 days`, seeded change C07-s7) files some elements under
+    a year derived from ANOTHER element's date."""
+    from mir import Terms, parse_callee, show, summary
+    n = 0
+
+    def strip(t):
+        while isinstance(t, tuple) and t:
+            if t[0] == "field" or t[0] == "dc":
+                t = t[1]
+            elif t[0] == "call" and len(t) == 3 and len(t[2]) == 1 and parse_callee(t[1])[2] in ("branch", "start_year", "clone", "unwrap_or_default", "into", "from", "deref"):
+                t = t[2][0]
+            elif t[0] == "some" and len(t) == 2:
+                t = t[1]
+            elif t[0] == "inl":
+                t = t[2]
+            else:
+                break
+        return t
+
+    def derived(t, depth=0):
+        """None if t is the year of from_date(date…), else a reason"""
+        t = strip(t)
+        if not (isinstance(t, tuple) and t):
+            return f"{show(t)[:80]}"
+        if t[0] == "phi":
+            alts = [a for a in t[1]]
+            rs = [derived(a, depth) for a in alts]
+            # Try plumbing of one from_date call is a φ of from_residual(..)/new(..) — those carry no competing year
+            rs = [r for a, r in zip(alts, rs) if r is not None and not (isinstance(strip(a), tuple) and strip(a)[0] == "call" and parse_callee(strip(a)[1])[2] in ("from_residual",))]
+            if rs:
+                return "one of several alternatives: " + "; ".join(rs)[:200]
+            return None
+        if t[0] == "call":
+            m = parse_callee(t[1])
+            if m[2] == "from_date" and "TaxPeriod" in t[1]:
+                a = t[2][0] if t[2] else None
+                fs = {x[2] for x in subterms(a) if isinstance(x, tuple) and len(x) == 3 and x[0] == "field"} if a is not None else set()
+                if any("date" in f for f in fs) or (isinstance(a, tuple) and a and a[0] == "param"):
+                    return None
+                return f"from_date({show(a)[:60]}) — not a date of the element"
+            if t[1] in F.bodies and depth < 2:
+                sm = summary(F, t[1], 1)
+                if sm is not None:
+                    return derived(sm, depth + 1)
+        return f"{show(t)[:100]} is not the year of TaxPeriod::from_date(<element date>)"
+
+    for b in F.bodies.values():
+        if b.crate != "cgt_core" or not P.user_written(F, b) or "::models::" in b.id:
+            continue
+        tb = None
+        for i, t in b.calls():
+            m = parse_callee(t["callee"])
+            aty = t.get("aty") or []
+            if m[2] not in ("entry", "insert") or len(aty) < 2 or not re.search(r"Map<u16, ", aty[0]) or len(t["args"]) < 2:
+                continue
+            tb = tb or Terms(F, b, inline_depth=0)
+            k = tb.operand(t["args"][1])
+            why = derived(k)
+            n += 1
+            rep.ob("R7", f"{b.short}:year-key@{i}", why is None, "filed under the start year of TaxPeriod::from_date(its own date)" if why is None else
+                   f"`{b.short}` files an element under a year that is {why}: an element can land in a tax year its own date does not belong to",
+                   b.loc(t["sp"]), key=f"R7:{b.short}:year-key")
+    rep.count("year_keyed_filings", n)
+    if n < 2:
+        rep.unresolved("R7", "year-filing", f"only {n} filings into a year-keyed map found (legs and dividends expected)")
+
+
 def controls(pctx, rep):
     """C07-R6 expects no restricting range on today's tree: the detector must still see one where there is one"""
     try:
@@ -682,3 +754,4 @@ def run(ctx, rep):
     provenance(F, rep)
     sibling_builders(F, rep)
     frontend_year_ranges(F, rep)
+    filing_keys(F, rep)
